@@ -149,27 +149,27 @@ Proof.
   apply andb_true_iff in H as [H1 H2]. apply Z.eqb_eq in H1. apply IH in H2. congruence.
 Qed.
 
+Lemma cct_is_eqb cct d : cct_is cct d = bytes_eqb cct [48; d].
+Proof.
+  destruct cct as [|a [|b [|c r]]]; cbn [cct_is bytes_eqb]; rewrite ?andb_true_r, ?andb_false_r; reflexivity.
+Qed.
+
 Lemma decoder_agrees cct bs : Forall is_byte bs -> trigger_a4_cct cct bs = false ->
   decoder_of_cct cct bs = decoder_spec cct bs.
 Proof.
-  intros Hb Ht. unfold decoder_of_cct, trigger_a4_cct, latin_cct in *.
-  destruct (bytes_eqb cct [48; 48]) eqn:E0.
-  { apply bytes_eqb_eq in E0; subst cct. cbn in Ht. apply iso6937_list; assumption. }
+  intros Hb Ht. unfold decoder_of_cct, decoder_spec, trigger_a4_cct, latin_cct in *. rewrite !cct_is_eqb.
+  change 0x31 with 49. change 0x32 with 50. change 0x33 with 51. change 0x34 with 52.
   destruct (bytes_eqb cct [48; 49]) eqn:E1.
-  { apply bytes_eqb_eq in E1; subst cct. cbn [decoder_spec]. apply charmap_eq; [|assumption]. intros b H; apply iso8859_tables, H. }
+  { destruct (bytes_eqb cct [48; 48]) eqn:E0; [apply bytes_eqb_eq in E0, E1; congruence|].
+    apply charmap_eq; [|assumption]. intros b H; destruct (iso8859_tables b H) as (H5 & H6 & H7 & H8); exact H5. }
   destruct (bytes_eqb cct [48; 50]) eqn:E2.
-  { apply bytes_eqb_eq in E2; subst cct. cbn [decoder_spec]. apply charmap_eq; [|assumption]. intros b H; apply iso8859_tables, H. }
+  { destruct (bytes_eqb cct [48; 48]) eqn:E0; [apply bytes_eqb_eq in E0, E2; congruence|].
+    apply charmap_eq; [|assumption]. intros b H; destruct (iso8859_tables b H) as (H5 & H6 & H7 & H8); exact H6. }
   destruct (bytes_eqb cct [48; 51]) eqn:E3.
-  { apply bytes_eqb_eq in E3; subst cct. cbn [decoder_spec]. apply charmap_eq; [|assumption]. intros b H; apply iso8859_tables, H. }
+  { destruct (bytes_eqb cct [48; 48]) eqn:E0; [apply bytes_eqb_eq in E0, E3; congruence|].
+    apply charmap_eq; [|assumption]. intros b H; destruct (iso8859_tables b H) as (H5 & H6 & H7 & H8); exact H7. }
   destruct (bytes_eqb cct [48; 52]) eqn:E4.
-  { apply bytes_eqb_eq in E4; subst cct. cbn [decoder_spec]. apply charmap_eq; [|assumption]. intros b H; apply iso8859_tables, H. }
-  cbn in Ht.
-  assert (Hs : decoder_spec cct = decode_iso6937).
-  { destruct cct as [|a [|b [|c r]]]; try reflexivity.
-    cbn [bytes_eqb] in E1, E2, E3, E4. rewrite andb_true_r in E1, E2, E3, E4.
-    unfold decoder_spec.
-    destruct (a =? 48) eqn:Ea; [apply Z.eqb_eq in Ea; subst a | destruct a as [|p|p]; try reflexivity; repeat (destruct p; try reflexivity); cbn in Ea; discriminate].
-    cbn [andb] in E1, E2, E3, E4.
-    destruct b as [|p|p]; try reflexivity. repeat (destruct p; try reflexivity); cbn in E1, E2, E3, E4; discriminate. }
-  rewrite Hs. apply iso6937_list; assumption.
+  { destruct (bytes_eqb cct [48; 48]) eqn:E0; [apply bytes_eqb_eq in E0, E4; congruence|].
+    apply charmap_eq; [|assumption]. intros b H; destruct (iso8859_tables b H) as (H5 & H6 & H7 & H8); exact H8. }
+  cbn in Ht. destruct (bytes_eqb cct [48; 48]); apply iso6937_list; assumption.
 Qed.
